@@ -175,7 +175,7 @@ def unfaithful_nlri(x, n):
 
 # ---- kind 8: API NLRI of flowspec / SR policy / RTC / MUP
 def xnlri_modelled(c):
-    return c['x'][0] in (10, 11, 12, 13)
+    return c['x'][0] in (10, 11, 12, 13, 14, 15, 16, 17)
 
 def fs_rule_to_coq(r):
     if r[0] == 0: return 'FRMissing'
@@ -196,6 +196,10 @@ def xnlri_to_coq(c):
     if x[0] == 11: return 'run_api_fs_case %s (AFsVpn %s %s)' % (cN(fam), api_rd_to_coq(x[1]), rlist(x[2], fs_rule_to_coq))
     if x[0] == 12: return 'run_api_srp_case %s (ASrP %s %s %s %s)' % (cN(fam), cN(x[1]), cN(x[2]), cN(x[3]), cbytes(x[4]))
     if x[0] == 13: return 'run_api_rtc_case %s (ARtc %s %s)' % (cN(fam), cN(x[1]), api_rt_to_coq(x[2]))
+    if x[0] == 14: return 'run_api_mup_case %s (AMupIsd %s %s)' % (cN(fam), api_rd_to_coq(x[1]), cstr(x[2]))
+    if x[0] == 15: return 'run_api_mup_case %s (AMupDsd %s %s)' % (cN(fam), api_rd_to_coq(x[1]), cstr(x[2]))
+    if x[0] == 16: return 'run_api_mup_case %s (AMupT1 %s %s %s %s %s %s %s %s)' % (cN(fam), api_rd_to_coq(x[1]), cstr(x[2]), cN(x[3]), cN(x[4]), cN(x[5]), cstr(x[6]), cN(x[7]), cstr(x[8]))
+    if x[0] == 17: return 'run_api_mup_case %s (AMupT2 %s %s %s %s)' % (cN(fam), api_rd_to_coq(x[1]), cN(x[2]), cstr(x[3]), cN(x[4]))
     raise ValueError(x)
 
 def xnlri_known_class(c, obs):
@@ -788,7 +792,8 @@ class Prop:
     pid = 'C17'
     props_file = 'Props/C17.v'
     required_theorems = ['attr_roundtrip_up_to_flags', 'attr_roundtrip_core_outside_known', 'attr_roundtrip_core_refuted', 'from_api_total', 'from_api_preserves_wf', 'wire_values_are_wf', 'wf_is_safe_downstream', 'api_accepted_is_safe', 'nlri_roundtrip_core', 'net_from_api_preserves_wf', 'nlri_encode_safe', 'local_path_accepts_wf', 'evpn_roundtrip', 'evpn_from_api_preserves_wf', 'noncore_roundtrip_guarded', 'noncore_typed_from_api_wf', 'flowspec_roundtrip', 'flowspec_from_api_preserves_wf', 'srpolicy_roundtrip_and_wf', 'rtc_roundtrip_outside_known', 'rtc_roundtrip_refuted', 'rtc_from_api_preserves_wf',
-                         'typed_from_api_total', 'prefix_sid_accepted_wf', 'prefix_sid_roundtrip', 'tunnel_encap_accepted_wf', 'tunnel_encap_roundtrip']
+                         'typed_from_api_total', 'prefix_sid_accepted_wf', 'prefix_sid_roundtrip', 'tunnel_encap_accepted_wf', 'tunnel_encap_roundtrip',
+                         'mup_roundtrip', 'mup_from_api_preserves_wf']
     correspondence_name = ('Model/Api.v (wire_accept, to_api, from_api, net_from_api, nlri_to_api, local_path, as_path_length, encode_attr, rib_cmp, encode_nlri) vs '
                            'daemon/src/convert.rs attr_to_api / attr_from_api / nlri_to_api / net_from_api, event/grpc.rs GrpcService::local_path, '
                            'packet Attribute::{decode via PeerCodec::parse_message, as_path_length, encode_to_bytes}, Nlri::encode_to_bytes, '
@@ -798,11 +803,11 @@ class Prop:
             '(2) one API NLRI message through net_from_api, then Nlri::encode; (3) one internal IPv4/IPv6/labeled NLRI through nlri_to_api / net_from_api; '
             '(5) a whole api::Path through GrpcService::local_path, then Table::insert; (6) one API EVPN message through net_from_api, checked to decode back from its own wire encoding; '
             '(7) one internal EVPN route through nlri_to_api / net_from_api; (8) one API NLRI message of the flowspec (plain / VPN), SR Policy, RTC and MUP families through net_from_api and the family check of local_path, '
-            'then Nlri::encode, the repository decoder on those bytes (must give the accepted value back), nlri_to_api and net_from_api again; flowspec / SR Policy / RTC are modelled (accepted?, wire bytes, listed form compared), MUP is judged by the oracle only; '
-            '(9) one typed PrefixSid or TunnelEncap message through attr_from_api, then the packet decoder on the stored value, attr_to_api and attr_from_api again: modelled (accepted?, value octets, listing compared; '
-            'a PrefixSid message whose prost maps hold several keys is compared on accepted? only, their iteration order is not fixed) and judged by a normal-form oracle (refused, or listed as given); '
-            'gen/c17typed.py ENUMERATES 67 further classes (377 cases: every oneof unset, every bounded field at bound and bound + 1, SID lengths 0/4/15/16/17, every flag alone, each one-per-path sub-TLV twice, '
-            'names around the two-octet length, values around 65535 octets, tunnel types around u16); '
+            'then Nlri::encode, the repository decoder on those bytes (must give the accepted value back), nlri_to_api and net_from_api again; flowspec / SR Policy / RTC / MUP are modelled (accepted?, wire bytes, listed form compared); '
+            '(9) one typed PrefixSid, TunnelEncap or LsAttribute message through attr_from_api, then the packet decoder on the stored value, attr_to_api and attr_from_api again: PrefixSid and TunnelEncap are modelled (accepted?, value octets, listing compared; '
+            'a PrefixSid message whose prost maps hold several keys is compared on accepted? only, their iteration order is not fixed) and judged by a normal-form oracle (refused, or listed as given); the LsAttribute message is NOT modelled and judged by the oracle only (every field within its wire width or refused, decoder reads the value back, relists unchanged); '
+            'gen/c17typed.py ENUMERATES 74 further classes (696 cases: every oneof unset, every bounded field at bound and bound + 1, SID lengths 0/4/15/16/17, every flag alone, each one-per-path sub-TLV twice, '
+            'names around the two-octet length, values around 65535 octets, tunnel types around u16; LS attribute: SR ranges around the 20-bit label / 24-bit size / u32 wrap, delays and IGP metric around 24 bits, labels around 20 bits, weights / flags / algorithms around 255, every address spelling, 0/1/7/8/9 unreserved-bandwidth values); '
             'these kinds are modelled and compared with the model value for value. '
             'gen/c17enum.py ENUMERATES 120 classes (about 4200 cases) on every run, one per clause / branch / comparison of the anchored functions with values on both sides of each boundary '
             '(every flags octet; value lengths around each type rule; segment counts 0/1/63/64/65/127/128/129/254/255/256/257 with AS numbers whose octets look like segment headers; 255/256 and 65535/65536-octet values; '
@@ -830,8 +835,9 @@ class Prop:
         'For TUNNEL_ENCAP and PREFIX_SID the typed messages are modelled from the API side (prefix_sid_from_api / tunnel_encap_tlv_from_api, the encoders of packet/src/prefix_sid.rs and packet/src/tunnel_encap.rs, '
         'and the typed listing on the stored tree: theorems typed_from_api_total, prefix_sid_*, tunnel_encap_*); their wire DECODERS are not modelled: that the decoder reads the stored value back is an observation of the harness judged by the oracle, '
         'and the one place where the listing depends on the decoder (a type B segment structure is read only under flag 0x40) enters the model as a stated rule of seg_to_api; std::str::from_utf8 is the Gallina function utf8_valid (compared, not proved). '
-        'For these two and the BGP-LS attribute the lossless-or-raw wrapper of attr_to_api is modelled with the typed converters as uninterpreted functions (theorems noncore_*); the typed BGP-LS attribute message (ls_tlvs_from_api) is NOT modelled and only reached from the wire side by the wide differential part; '
-        'the MUP and BGP-LS NLRI families are not modelled: MUP is covered from the API side by kind 8 (oracle: decodes back from its own encoding, relists unchanged, family consistent) and both from the wire side by the wide differential part (sampling, no proof): the property is claimed partial for them',
+        'For these two and the BGP-LS attribute the lossless-or-raw wrapper of attr_to_api is modelled with the typed converters as uninterpreted functions (theorems noncore_*); the typed BGP-LS attribute message (ls_tlvs_from_api) is NOT modelled: it is exercised from the API side by kind 9 with the oracle alone, and from the wire side by the wide differential part; '
+        'MUP NLRI (four route types, prefix text with rsplit_once / u8::from_str, Type 2 endpoint-length rule, encoding) is modelled from the API side; its wire decoder is not (the harness checks that the decoder gives the accepted value back). '
+        'The BGP-LS NLRI family is not modelled; it is reached from the wire side by the wide differential part only (sampling, no proof): the property is claimed partial for it',
         'the wire decoder is modelled only as far as C17 needs it (Attribute::decode in four-octet-AS form and the per-attribute admission of the UPDATE arm); '
         'two-octet-AS sessions, treat-as-withdraw and NLRI decoding are exercised by the wide part only',
         'the comparator is modelled for one comparison between paths of two sources of equal role that are not stale (what Table::insert does against a destination holding one path); '
@@ -1140,7 +1146,7 @@ class Prop:
         if c['k'] == 8:
             return ['xnlri', 'xnlri:%s:%s' % ({10: 'flowspec', 11: 'flowspec_vpn', 12: 'srpolicy', 13: 'rtc', 14: 'mup_isd', 15: 'mup_dsd', 16: 'mup_t1st', 17: 'mup_t2st'}.get(c['x'][0]), 'accepted' if obs and obs[0] == 1 else 'refused')]
         if c['k'] == 9:
-            return ['typed', 'typed:%s:%s' % ('prefix_sid' if c['w'] == 0 else 'tunnel_encap', 'accepted' if obs and obs[0] == 1 else 'refused')]
+            return ['typed', 'typed:%s:%s' % ({0: 'prefix_sid', 1: 'tunnel_encap', 2: 'ls_attribute'}[c['w']], 'accepted' if obs and obs[0] == 1 else 'refused')]
         if c['k'] == 5:
             return ['local_path', 'local_path:%s:attrs_%d' % ('accepted' if obs and obs[0] == 1 else 'rejected', min(len(c['attrs']), 4))]
         if c['k'] == 4:
